@@ -339,6 +339,35 @@ func c05(c *an.Ctx) {
 		}
 	})
 
+	c.Check("R-LOCK", "Invoke never blocks (channel receive/send, blocking select, wait) while holding batchContext.mu", 2, func(o *an.O) {
+		fn := invoke()
+		ls := an.ComputeLocks(fn, nil)
+		for _, f := range an.WithAnons(fn) {
+			lsf := ls
+			if f != fn {
+				lsf = an.ComputeLocks(f, nil)
+			}
+			for _, op := range an.ChanOps(f) {
+				if op.Kind == "close" || op.Kind == "len" || op.Kind == "cap" {
+					continue
+				}
+				if sel, ok := op.Instr.(*ssa.Select); ok && !sel.Blocking {
+					continue
+				}
+				o.Site(op.Instr)
+				if _, held := lsf.HeldField(op.Instr, "batchContext", "mu"); held {
+					o.FailAt(op.Instr, "Invoke blocks on a channel (%s %s) while holding batchContext.mu: if the awaited event was already consumed (e.g. the group's creator took the timer tick) every other caller of this batching context hangs behind the lock", op.Kind, an.Short(an.Expr(op.Chan), 40))
+				}
+			}
+			for _, i := range an.CallsAny(f, an.CalleeSpec{Pkg: "sync", Recv: "WaitGroup", Name: "Wait"}, an.CalleeSpec{Pkg: "time", Name: "Sleep"}, an.Mod("concurrencylimiter", "", "TemporarilyRelease"), an.Mod("batch", "", "safeInvoke")) {
+				o.Site(i)
+				if _, held := lsf.HeldField(i, "batchContext", "mu"); held {
+					o.FailAt(i, "Invoke calls %s while holding batchContext.mu", an.Short(an.Expr(an.CallOf(i).Value), 40))
+				}
+			}
+		}
+	})
+
 	c.Check("R-POST", "Invoke: creator always closes doneCh after the select; select has both timers, ctx.Done() and maxSizeCh; joiners wait only on doneCh", 3, func(o *an.O) {
 		fn := invoke()
 		var sel *ssa.Select
